@@ -355,7 +355,7 @@ RunningU(m) == m.st \in {"run", "unwind"}
 \* explicit = names whose descriptor was disabled by an assignment (top-level packet only)
 DescRead(dp, f, vals, explicit) ==       \* [ok, v]
     IF f.name \in explicit \/ f.desc.kind = "check" THEN Ok(Lookup(vals, f.name))      \* ("check": a plain slot with an after-unpack hook)
-    ELSE IF f.desc.kind = "autolen"
+    ELSE IF f.desc.kind \in {"autolen", "bounded"}
          THEN LET t == IF HasVal(vals, f.desc.of) THEN Lookup(vals, f.desc.of) ELSE NoneV IN
               IF t.t \in {"bytes", "list"} THEN Ok(IntV(Len(PL(t)))) ELSE Raise
          ELSE Eval(f.desc.e, [vals |-> vals, raw |-> <<>>, cur |-> 0, root |-> <<>>, ipos |-> 0, plen |-> PLen(dp, vals, <<>>)])
@@ -365,7 +365,9 @@ SyncVals(dp, fs, i, vals, explicit) ==      \* [ok, vals, name]
     IF i > Len(fs) THEN [ok |-> TRUE, vals |-> vals, name |-> ""]
     ELSE IF fs[i].k = "Int" /\ fs[i].desc.kind \notin {"none", "check"}      \* ("check" brings no before-pack hook)
          THEN LET r == DescRead(dp, fs[i], vals, explicit) IN
-              IF ~r.ok THEN [ok |-> FALSE, vals |-> vals, name |-> ListedName(fs[i])]
+              \* ("bounded": a user's subclass of AutoLength whose OWN before-pack hook refuses lengths above its limit)
+              IF ~r.ok \/ (fs[i].desc.kind = "bounded" /\ r.v.t = "int" /\ r.v.i > fs[i].desc.limit)
+              THEN [ok |-> FALSE, vals |-> vals, name |-> ListedName(fs[i])]
               ELSE SyncVals(dp, fs, i + 1, SetVal(vals, fs[i].name, r.v), explicit)
          ELSE SyncVals(dp, fs, i + 1, vals, explicit)
 
